@@ -6,9 +6,9 @@ META["C16"] = {
     "level": "exploration",
     "tiers": {
         "quick": {"shards": 8, "deadline_s": 120,
-                  "bounds": "all (total, world, rank) with total <= 4096, world <= 128; boundary lattice 2^k+-3 (k <= 63) x worlds {1..65, 2^j, 2^j+-1 (j <= 31)}; mpi_plain under the shim for world <= 12"},
+                  "bounds": "all (total, world, rank) with total <= 4096, world <= 128; boundary lattice 2^k+-3 (k <= 63) x worlds {1..65, 2^j, 2^j+-1 (j <= 31)}; mpi_plain / mpi_vegas / mpi_multi_channel under the shim for world <= 12"},
         "thorough": {"shards": 16, "deadline_s": 900,
-                     "bounds": "all (total, world, rank) with total <= 100000, world <= 256; the same lattice; mpi_plain under the shim for world <= 33 and three numeric types"},
+                     "bounds": "all (total, world, rank) with total <= 100000, world <= 256; the same lattice; the three mpi_* integrators under the shim for world <= 33 and three numeric types"},
     },
     "rule": "exhaustive nested enumeration of (total, world) with every rank; a pair is non-trivial when total is not divisible by world (the remainder handling is exercised); distinct = distinct (total, world) pairs",
     "assumptions": [
